@@ -56,7 +56,10 @@ LEVEL_TEXT = (
     "state is applied once — the code re-decides instead of the property's literal `carried and re-evaluated`); "
     "not_duplicated_partial + reapplied_after_status_conflict_witness (after a 422 on the FOURTH request the handler-supplied "
     "body fns are applied a second time: membership is preserved for state-checking fns, which docs/patches.rst demands; the "
-    "order may change — documented contract, not a finding); silent_404, raised_only_on_api_error; same_object_partial and the "
+    "order may change — documented contract, not a finding); daemon_invocation_owns_its_patch + daemon_delivery_not_repeated (every "
+    "invocation of a daemon/timer sends exactly what it accumulated itself, and after an accepted delivery nothing of it is sent "
+    "again; tied on whole-operator runs with several timers/daemons per object by replaying each delivery from the HANDLER's own "
+    "log of what it accumulated); silent_404, raised_only_on_api_error; same_object_partial and the "
     "negation of the full same_object: name_reuse_witness (finding F2). Hand-written model, tied to the real "
     "patch_obj/apply by a differential run (complete over the stated 32130-case grid in the thorough tier, sampled in quick, "
     "plus random contents, several writes per slot, error codes 400/409) and to the whole operator by replaying every "
@@ -67,6 +70,7 @@ THEOREMS = [("Kopf.Props.C08", "Kopf.C08." + n) for n in [
     "fns_atomic", "conflict_keeps_all_fns", "remaining_only_after_refusal",
     "carry_forward", "stale_view_conflicts_and_carries", "accepted_call_empties_memory", "carried_until_accepted",
     "finalizer_redecided", "not_duplicated_partial", "reapplied_after_status_conflict_witness",
+    "daemon_invocation_owns_its_patch", "daemon_delivery_not_repeated",
     "silent_404", "raised_only_on_api_error", "same_object_partial", "name_reuse_witness"]]
 RULE = (
     "grid: subresource(2) x initial object {plain, foreign+own finalizer, marked+own finalizer}(3) x fields {none, "
@@ -202,6 +206,13 @@ def _mk_fn(desc: list) -> Any:
             if not fins:
                 del body["metadata"]["finalizers"]
         return user_fin
+    if desc[0] == "uappend":
+        # NOT safe to call repeatedly: appends to a status list
+        k, v = desc[1], desc[2]
+
+        def user_append(body: dict, k: str = k, v: Any = v) -> None:
+            body.setdefault("status", {}).setdefault(k, []).append(copy.deepcopy(v))
+        return user_append
     if desc[0] == "setStatus":
         k, v = desc[1], desc[2]
 
@@ -448,6 +459,9 @@ def o_apply_fns(fns: list, fins: list[str], status: Any) -> tuple[list[str], Any
         elif d[0] == "setStatus":
             status = dict(status or {})
             status[d[1]] = copy.deepcopy(d[2])
+        elif d[0] == "uappend":
+            status = dict(status or {})
+            status[d[1]] = list(status.get(d[1]) or []) + [copy.deepcopy(d[2])]
     return fins, status
 
 
@@ -594,7 +608,7 @@ def oracle_call(ctx: Ctx, case: Any, i: int, o: dict, sub: bool, where: str = "p
                     fail("status after the JSON-patch differs from the transformations on the tested state",
                          {"site": "patching.patch_obj", "shape": "JSON-patch effect differs from the transformations on the tested state"})
             else:
-                _, ws = o_apply_fns([d for d in fns if d[0] == "setStatus"], [], pre.get("status"))
+                _, ws = o_apply_fns([d for d in fns if d[0] in ("setStatus", "uappend")], [], pre.get("status"))
                 if post is not None and leanio.canon(post.get("status")) != leanio.canon(strip_nulls(ws)):
                     fail("status after the status JSON-patch differs from the transformations on the tested state",
                          {"site": "patching.patch_obj", "shape": "JSON-patch effect differs from the transformations on the tested state"})
@@ -853,8 +867,10 @@ def _rand_fns(rng: Any) -> list:
             out.append(["ublock", rng.choice(["user.io/u", f])])
         elif r < 0.8:
             out.append(["uallow", rng.choice(["user.io/u", f])])
-        else:
+        elif r < 0.93:
             out.append(["setStatus", rng.choice(["seen", "observed"]), rng.choice([1, "s", {"a": [1]}, True])])
+        else:
+            out.append(["uappend", "log", rng.choice(["x", "y", 1])])
     return out
 
 
